@@ -28,7 +28,7 @@ for d in sorted(os.listdir(V + '/seeded')):
     first = m.get('first_run_before_strengthening')
     rows.append('| %s%s | %s | %s | %s | %s | %s | %s |' % (d, ' (ported)' if m.get('ported') else '', m['breaks_property'], what.replace('|', '/'),
                 'yes' if ver and all(ver.values()) else str(ver), res or 'not run yet',
-                '' if first is None else ('caught' if first['caught'] else 'missed'), m.get('strengthening_made_because_of_it', '')))
+                '' if first is None else ('caught' if first.get('caught') else ('strengthened before the first run' if first.get('caught') is None else 'missed')), m.get('strengthening_made_because_of_it', '')))
 block('SEEDED', '\n'.join(rows))
 
 # ---- evidence
